@@ -125,6 +125,48 @@ class Machine:
             return {"op": op_i, "kind": kind, "at": s.below(n), "errno": s.choice([_errno.ENOENT, _errno.EACCES])}
         return None
 
+    DIRTY_VARIANTS = [None, None, None, "tail", "tail", "cut", "junk_longer", "same_len"]
+
+    def dirty_rerun(self, host, model, prop, op, out_rels, run_again, clause):
+        """Reused build directory: after a successful, deterministic operation whose outputs were just judged, the
+        output files are left in a state an earlier build could have produced - the right bytes followed by a tail, a
+        shorter prefix, longer junk, junk of the same length - and the same operation is issued again on unchanged
+        inputs.  Its outputs must be byte-identical to the first run's."""
+        variant = op.get("dirty")
+        if not variant:
+            return []
+        from . import world as _world
+
+        first = {r: host.read(r) for r in out_rels}
+        if any(v is None for v in first.values()):
+            return []
+        for r, b in first.items():
+            junk = _world.blob(host.seed, f"dirty-{op['i']}-{r}", len(b) + 100)
+            if variant == "tail":
+                host.write(r, b + junk[:max(1, len(b) // 3 + 7)])
+            elif variant == "cut":
+                host.write(r, b[: len(b) // 2])
+            elif variant == "junk_longer":
+                host.write(r, junk)
+            else:
+                host.write(r, junk[: len(b)])
+        o = run_again()
+        ex = model.setdefault("_extra", {})
+        ex["dirty_reruns"] = ex.get("dirty_reruns", 0) + 1
+        model["_nontrivial"] = True
+        if not o.ok:
+            return [violation(prop, "rerun-in-reused-directory-succeeds", op["i"],
+                              f"{op['kind']}: the same operation failed when its output files already existed ({variant}): "
+                              f"{o.cls} {o.exc_type}: {o.exc_msg}", cls="unexpected-failure", site=o.site)]
+        for r, b in first.items():
+            now = host.read(r)
+            if now != b:
+                return [violation(prop, clause, op["i"],
+                                  f"{op['kind']}: re-running with {r} already present ({variant}) leaves "
+                                  f"{None if now is None else len(now)} bytes, the first run wrote {len(b)} (stale bytes "
+                                  f"survive or the file was not rewritten)")]
+        return []
+
     @staticmethod
     def note(model, o):
         """Record an Outcome in the model fields the runner reads."""
